@@ -98,6 +98,8 @@ def run(ctx):
     appends = [e.args[0] for e in all_effects(o.effects) if isinstance(e, App) and e.op == "eff:call"
                and isinstance(e.args[0], App) and e.args[0].op == "meth:append"
                and strip_sites(e.args[0].args[0]) == wrapper]
+    if len(appends) == 0:
+        generic.absent(ctx, "authentication block appended", fi, "wrapper.append(<COSE_Sign1 block>)", "the signature never reaches the envelope")
     if len(appends) != 1:
         raise AnalysisError(f"{fq}: append to the authentication wrapper not recognised ({len(appends)})")
     blk = strip_sites(appends[0].args[1])
@@ -213,6 +215,8 @@ def cmd_rules(ctx):
     o = outs[0]
     dumps = [e.args[0] for e in all_effects(o.effects) if isinstance(e, App) and e.op == "eff:call" and isinstance(e.args[0], App)
              and e.args[0].op == "call:cbor2.dump"]
+    if len(dumps) == 0:
+        generic.absent(ctx, "signed envelope saved", main, "cbor2.dump(<signed envelope>, <output file>)", "the signed envelope is not written")
     if len(dumps) != 1:
         raise AnalysisError(f"cmd_sign.main: cbor2.dump not recognised ({len(dumps)})")
     d = dumps[0]
